@@ -16,6 +16,13 @@ Driver for C14.  Protocol (one case = one document of one LSP session):
                          (0 = the URI the case starts with); the argument is the content of the file
                          at the new path; the document is followed to its new URI
   at <id> <op>           wchg / wdel / peek (no event) for another URI; answers that URI's state
+  tokf <cur>             a semanticTokens/full request the server answered with the token array <cur> (it
+                         caches the result under the next result id); no answer line
+  tokd <k> <cur>         a semanticTokens/full/delta request naming the result id of token request number
+                         <k> of this case (0-based, full and delta requests counted) while the document's
+                         tokens are <cur>: `m full`, `m none` (no edits) or `m <start> <deleteCount> <data|->`
+                         (model of the cache: Impl.tokFull / Impl.tokDelta; the entry goes when the server
+                         forgets the document and when its file is renamed)
   delta <prev> <cur>     semantic_tokens_delta_edits on two token arrays (comma separated u32s, `-` =
                          empty): `m none` or `m <start> <deleteCount> <data|->` (wire units)
   tok <a> <b>            a semantic token with byte range [a, b) of the current text
@@ -41,6 +48,10 @@ structure St where
   editor : Option (List (Option Spec.Doc)) := some (List.replicate 8 none)
   /-- URI number of the document the case follows -/
   cur : Nat := 0
+  /-- the semantic-token cache of the followed document's URI; result ids are the numbers of the
+  token requests of the case (the harness asks for tokens of no other URI, and whatever entry a
+  URI has is removed before the document is followed to it) -/
+  tok : Impl.TokSrv (List Nat) := { nextId := 0, cache := none }
 
 def implStore (tbl : List (Option Impl.Doc)) : Impl.Store := fun v => (tbl.getD v none)
 def specStore (tbl : List (Option Spec.Doc)) : Spec.Store := fun v => (tbl.getD v none)
@@ -105,8 +116,14 @@ def wevent (st : St) (e : Impl.WEvent) : St :=
       | some ed' => some (us.foldl (fun tbl u => tbl.set u (ed' u)) es)
   { st with server := server, editor := editor }
 
+/-- `remove_document` drops the URI's token cache together with the document. -/
+def forgetIfGone (st : St) : St :=
+  match st.server.getD st.cur none with
+  | none => { st with tok := Impl.tokForget st.tok }
+  | some _ => st
+
 def event (st : St) (e : Impl.Event) : St × Option String :=
-  let st' := wevent st (.doc st.cur e)
+  let st' := forgetIfGone (wevent st (.doc st.cur e))
   (st', some (showDoc st' st.cur))
 
 def parseU32s? (s : String) : Option (List Nat) :=
@@ -160,7 +177,7 @@ def step (st : St) (line : String) : St × Option String :=
   | ["ren", id, h] =>
     match (id.toNat?).filter (· < 8), diskArg? h with
     | some id, some d =>
-      let st' := { wevent st (.renamed st.cur id d) with cur := id }
+      let st' := { wevent st (.renamed st.cur id d) with cur := id, tok := Impl.tokForget st.tok }
       (st', some (showDoc st' id))
     | _, _ => (st, some "bad-op")
   | ["at", id, "peek"] =>
@@ -175,6 +192,20 @@ def step (st : St) (line : String) : St × Option String :=
     match (id.toNat?).filter (· < 8), diskArg? h with
     | some id, some d =>
       let st' := wevent st (.doc id (.watchedChanged d)); (st', some (showDoc st' id))
+    | _, _ => (st, some "bad-op")
+  | ["tokf", a] =>
+    match (parseU32s? a).bind chunk5 with
+    | some cur => ({ st with tok := (Impl.tokFull st.tok cur).1 }, none)
+    | none => (st, some "bad-op")
+  | ["tokd", k, a] =>
+    match k.toNat?, (parseU32s? a).bind chunk5 with
+    | some k, some cur =>
+      let r := Impl.tokDelta st.tok k cur
+      let out := match r.2 with
+        | .full _ _ => "m full"
+        | .delta _ [] => "m none"
+        | .delta _ es => "m " ++ joinWith " ; " (es.map showEdit)
+      ({ st with tok := r.1 }, some out)
     | _, _ => (st, some "bad-op")
   | ["delta", a, b] =>
     match (parseU32s? a).bind chunk5, (parseU32s? b).bind chunk5 with
